@@ -1,0 +1,17 @@
+//go:build verif
+
+package runtime
+
+import "github.com/siyul-park/uniflow/pkg/symbol"
+
+// VerifSymbols returns a snapshot of the symbols the runtime's symbol table currently holds
+// (read-only accessor for the verification harness; symbols without a node never reach a hook).
+func (r *Runtime) VerifSymbols() []*symbol.Symbol {
+	var symbols []*symbol.Symbol
+	for _, id := range r.symbolTable.Keys() {
+		if sb := r.symbolTable.Lookup(id); sb != nil {
+			symbols = append(symbols, sb)
+		}
+	}
+	return symbols
+}
